@@ -721,6 +721,56 @@ replay_resample = common.per_case(_one_resample, 'resample')
 
 
 # ==========================================================================================
+# slicing and conditional maps over pytrees (TreesSlice.tla)
+# ==========================================================================================
+
+def _one_slice(c):
+  np, jax, jnp = _jax()
+  from dinosaur import pytree_utils as pu
+  out = []
+  brief = {k: c[k] for k in ('op', 'shapes', 'axis', 'same', 'ix')}
+
+  def bad(sig, detail):
+    out.append({'case': brief, 'sig': sig, 'detail': detail})
+  leaves = [np.arange(int(np.prod(sh, dtype=int)), dtype=np.float64).reshape(tuple(sh)) + 100 * (i + 1)
+            for i, sh in enumerate(c['shapes'])]
+  tree = {'a': jnp.asarray(leaves[0])}
+  if len(leaves) > 1:
+    tree['nested'] = {'b': jnp.asarray(leaves[1])}
+  if len(leaves) > 2:
+    tree['nested']['c'] = jnp.asarray(leaves[2])
+  order = lambda t: [t['a']] + ([t['nested']['b']] if len(leaves) > 1 else []) + ([t['nested']['c']] if len(leaves) > 2 else [])
+  if c['op'] == 'slice':
+    ix = c['ix']['lo'] if c['ix']['kind'] == 'int' else slice(c['ix']['lo'], c['ix']['hi'])
+    try:
+      got = pu.slice_along_axis(tree, c['axis'], ix, expect_same_dims=c['same'])
+      err = False
+    except ValueError:
+      got, err = None, True
+    if err != c['error'] and not (c['lenient'] and err):
+      bad('slice:validation', f'slice_along_axis {"raised ValueError" if err else "accepted the arguments"}, spec: {"ValueError" if c["error"] else "accepted"}')
+      return out
+    if err:
+      return out
+  elif c['op'] == 'nonscalars':
+    got = pu.tree_map_over_nonscalars(lambda x: 2 * x, tree, scalar_fn=lambda x: -x)
+  else:
+    got = pu.tree_map_where(lambda x: x.ndim == 2, lambda x: 2 * x, lambda x: -x, tree)
+  if jax.tree_util.tree_structure(got) != jax.tree_util.tree_structure(tree):
+    bad(f'{c["op"]}:structure', 'the tree structure changed')
+    return out
+  for i, (g, e) in enumerate(zip(order(got), c['out'])):
+    g = np.asarray(g)
+    want = np.array(e['data'], dtype=np.float64).reshape(tuple(e['shape']))
+    if g.shape != want.shape or not np.array_equal(g, want):
+      bad(f'{c["op"]}:leaf', f'leaf {i}: shape {g.shape} values {g.ravel().tolist()[:8]}, spec shape {want.shape} values {want.ravel().tolist()[:8]}')
+  return out
+
+
+replay_slice = common.per_case(_one_slice, 'slice')
+
+
+# ==========================================================================================
 
 _KINDS = {
     'dict': ('TreesDict', 'replay_dict', ['Flatten', 'FlattenReject', 'Unflatten', 'Replace']),
@@ -729,6 +779,7 @@ _KINDS = {
     'attrs': ('TreesAttrs', 'replay_attrs', ['AsDict', 'Persist', 'FromAttrs']),
     'dataset': ('TreesDataset', 'replay_dataset', ['Write', 'Persist', 'Read']),
     'resample': ('TreesResample', 'replay_resample', ['Choose', 'Apply', 'Return']),
+    'slice': ('TreesSlice', 'replay_slice', ['CallSlice', 'CallNonscalars', 'CallWhere']),
 }
 
 
@@ -753,7 +804,7 @@ def replay_bins(bins):
   return out
 
 
-_COST = {'dict': 0.5, 'array': 30.0, 'attrs': 3.0, 'dataset': 5.0, 'resample': 50.0}
+_COST = {'dict': 0.5, 'array': 30.0, 'attrs': 3.0, 'dataset': 5.0, 'resample': 50.0, 'slice': 2.0}
 
 
 def _bins(items, nproc):
@@ -855,6 +906,10 @@ def run(ctx):
       ctx.notes['dataset_cases_with_ambiguous_shapes'] = sum(1 for c in cases if any(v['ambiguous'] for v in c['vars']))
       for c in [c for c in cases if c['eq'] == 'primitive' and c['ntr'] and c['time'] and c['sample']][:1]:
         ctx.sample({'kind': 'dataset', 'K': c['K'], 'rep': c['rep'], 'vars': c['vars'][3:5], 'sizes': c['sizes']})
+    elif kind == 'slice':
+      ctx.comparisons += sum(max(1, len(c['out'])) for c in cases)
+      for c in cases:
+        ctx.distinct.add(('slice', c['op'], str(c['shapes']), c['axis'], c['same'], str(c['ix'])))
     else:
       ctx.comparisons += sum(len(c['labels']) + 1 for c in cases)
       for c in cases:
